@@ -491,6 +491,36 @@ func (g *gen) vrf(n int, nz int) {
 		g.do("verify " + hx.Hex(pk) + " " + hx.Hex(pi) + " " + hx.Hex(m))
 		g.verifyVariants(pk, pi, m, 4)
 	}
+	// deterministic family of message lengths (the model hashes the whole message)
+	for _, L := range []int{0, 1, 31, 32, 33, 63, 64, 65, 66, 96, 127, 128, 129, 200, 1000} {
+		pk, sk := g.key()
+		m := r.Bytes(L)
+		res := g.do("prove " + hx.Hex(sk) + " " + hx.Hex(m))
+		if !strings.HasPrefix(res, "ok ") {
+			continue
+		}
+		pi, _ := hx.UnHex(res[3:])
+		g.do("verify " + hx.Hex(pk) + " " + hx.Hex(pi) + " " + hx.Hex(m))
+		if L > 0 {
+			g.do("verify " + hx.Hex(pk) + " " + hx.Hex(pi) + " " + hx.Hex(flip(m, 8*(L-1)+r.Intn(8))))
+			g.do("prove " + hx.Hex(sk) + " " + hx.Hex(flip(m, 8*(L-1))))
+		}
+		g.do("verify " + hx.Hex(pk) + " " + hx.Hex(pi) + " " + hx.Hex(append(append([]byte{}, m...), 0)))
+		g.do("prove " + hx.Hex(sk) + " " + hx.Hex(append(append([]byte{}, m...), 0)))
+		// over-long / under-long prove values around this proof through every consumer
+		for _, extra := range []int{1, 5, 32, 80} {
+			pre := r.Bytes(extra)
+			pre[0] |= 1
+			for _, pv := range [][]byte{append(append([]byte{}, pre...), pi...), append(append([]byte{}, pi...), r.Bytes(extra)...)} {
+				g.do("verify " + hx.Hex(pk) + " " + hx.Hex(pv) + " " + hx.Hex(m))
+				g.do("pad " + hx.Hex(pv))
+				g.do("p2h " + hx.Hex(pv))
+				g.do("p2v " + hx.Hex(pv))
+				g.do(fmt.Sprintf("qn %d %s 10 0 10", g.thr[0], hx.Hex(pv)))
+				g.do(fmt.Sprintf("vbv %d %s %s %s 10 0 1 5 0", g.thr[0], hx.Hex(pk), hx.Hex(pv), hx.Hex(m)))
+			}
+		}
+	}
 	// the 1-in-256 proofs whose first byte is zero (header transport drops it)
 	zs := g.proofsWithLeadingZero(nz, nz*2000)
 	for _, z := range zs {
